@@ -751,3 +751,51 @@ fn c09_slyce_python_semantics_len3() {
     }
     assert!(got == cnt);
 }
+
+// =============================================================== conformance of the V prelude's models
+// The Verus prelude MODELS code that macros generate (enum-as-inner accessors, derive_more From impls) and two std
+// functions; these harnesses prove on the real crate that the models say what the generated code does.
+harness!(model_enum_as_inner_accessors, {
+    let (a, b): (i64, bool) = (kani::any(), kani::any());
+    // into_int: Ok(payload) on Int, Err(self) otherwise (the value is handed back unchanged)
+    match Variable::Int(a).into_int() { Ok(x) => assert!(x == a), Err(v) => { std::mem::forget(v); assert!(false) } }
+    match Variable::Bool(b).into_int() { Ok(_) => assert!(false), Err(v) => { assert!(obs_var(&v) == obs_var(&Variable::Bool(b))); std::mem::forget(v) } }
+    match Variable::Bool(b).into_bool() { Ok(x) => assert!(x == b), Err(v) => { std::mem::forget(v); assert!(false) } }
+    match Variable::Int(a).into_bool() { Ok(_) => assert!(false), Err(v) => { assert!(obs_var(&v) == obs_var(&Variable::Int(a))); std::mem::forget(v) } }
+    match Variable::Void.into_bool() { Ok(_) => assert!(false), Err(v) => { assert!(obs_var(&v).tag == 3); std::mem::forget(v) } }
+    match Variable::Int(a).into_mut() { Ok(m) => { std::mem::forget(m); assert!(false) }, Err(v) => { assert!(obs_var(&v) == obs_var(&Variable::Int(a))); std::mem::forget(v) } }
+    match Variable::Int(a).into_tuple() { Ok(m) => { std::mem::forget(m); assert!(false) }, Err(v) => { std::mem::forget(v) } }
+    match Variable::Int(a).into_function() { Ok(m) => { std::mem::forget(m); assert!(false) }, Err(v) => { std::mem::forget(v) } }
+});
+harness!(model_from_impls, {
+    let (a, b): (i64, bool) = (kani::any(), kani::any());
+    let f: f64 = kani::any();
+    assert!(obs(Variable::from(a)) == obs_var(&Variable::Int(a)));
+    assert!(obs(Variable::from(b)) == obs_var(&Variable::Bool(b)));
+    assert!(obs(Variable::from(f)).tag == 1 && obs(Variable::from(f)).f == f.to_bits());
+    // derive_more::From on Instruction wraps the operation without touching it
+    let i = Instruction::from(BinOperation { lhs: Instruction::Break, rhs: int(a), op: BinOperator::Subtract });
+    let (t, l, r, op) = obs_binop(&i);
+    std::mem::forget(i);
+    assert!(t == 5 && l.tag == 7 && r.tag == 0 && r.i == a && op == Some(BinOperator::Subtract));
+    let v = Instruction::from(Variable::Int(a));
+    assert!(obs_ins(&v) == obs_var(&Variable::Int(a)));
+    std::mem::forget(v);
+    // ExecError -> ExecStop is the Error variant carrying the same error
+    let s = crate::instruction::ExecStop::from(ExecError::ZeroModulo);
+    assert!(matches!(s, crate::instruction::ExecStop::Error(ExecError::ZeroModulo)));
+    std::mem::forget(s);
+});
+harness!(model_std_wrapping_contracts, {
+    let (a, b): (i64, i64) = (kani::any(), kani::any());
+    // the assumed Verus contracts of std, on the cases SAT can decide (full quotient equality is out of reach)
+    assert!(a.wrapping_neg() == ((-(a as i128)) as i64));
+    if b == 1 { assert!(a.wrapping_div(b) == a && a.wrapping_rem(b) == 0); }
+    if b == -1 { assert!(a.wrapping_div(b) == a.wrapping_neg() && a.wrapping_rem(b) == 0); }
+    if b != 0 && b != -1 {
+        let (q, r) = (a.wrapping_div(b), a.wrapping_rem(b));
+        // sign rules of truncation toward zero and of the remainder
+        if a >= 0 { assert!(r >= 0); } else { assert!(r <= 0); }
+        if (a > 0) == (b > 0) { assert!(q >= 0); } else { assert!(q <= 0); }
+    }
+});
